@@ -177,6 +177,10 @@ def to_scenario(hist, matrices):
             # snapshots) while it is out of rotation; it recovers later
             steps.append({"op": "probe_script", "targets": [{"name": H(c["outage_after"]), "probes": ["refused"] * 7 + ["ok"]}]})
             steps.append({"op": "sleep", "ns": SEC + SEC // 2 + 3, "id": "g%d" % i})
+        if c.get("slow_probe_after"):
+            # the next probe of that target is answered late (within its timeout, successfully): nothing observable changes in a
+            # running proxy; after a restart at this point it is the FIRST probe of the restored target that is slow
+            steps.append({"op": "probe_script", "targets": [{"name": H(c["slow_probe_after"]), "probes": ["slow:%d:200" % (SEC * 4 // 10), "ok"]}]})
         if c.get("flap_after"):
             steps.append({"op": "probe_script", "targets": [{"name": H(c["flap_after"]), "probes": ["refused", "ok"]}]})
             steps.append({"op": "sleep", "ns": 2 * SEC + SEC // 2 + 3, "id": "f%d" % i})
